@@ -235,8 +235,22 @@ impl<'a> Ctl<'a> {
     fn end_schedule(&mut self, plan: &str) -> Vec<u32> {
         let taken = sched::end();
         let v = sched::vector(&taken);
+        // a schedule = the oracle's choices + the guest-side plan + what they led to (callback
+        // codes of the task, statuses the guest learnt about its subtask and through which channel)
         let mut hv = v.clone();
         hv.push(vkit::hash64(plan.as_bytes()) as u32);
+        mh::with(|h| {
+            for t in h.tasks.iter().skip(1) {
+                hv.push(0xffff_0000);
+                hv.extend(t.codes.iter().map(|c| c & 0xf));
+            }
+            for r in &h.subcalls {
+                hv.push(0xffff_0001);
+                for (st, via) in &r.seen {
+                    hv.push(*st | (via.len() as u32) << 8);
+                }
+            }
+        });
         self.vectors.insert(sched::hash_vector(&hv));
         v
     }
